@@ -399,8 +399,8 @@ func TestC13_DegenerateRange(t *testing.T) {
 			a := rapid.SampledFrom([]float64{1e-10, 2e-10, 2.4e-10, 1e-12, 1e-15, 3e-10}).Draw(t, "alpha")
 			spec = gen.MapSpec{Kind: kind, FromAlpha: true, Alpha: a}
 		} else {
-			g := rapid.SampledFrom([]float64{1.02, 1.0001, 2, 1.5}).Draw(t, "gamma")
-			o := rapid.SampledFrom([]float64{-1e11, 1e11, 3e9, -3e9, 2.2e9, -2.2e9, 1e15, -1e15, 2147483647, -2147483648}).Draw(t, "offset")
+			g := rapid.SampledFrom([]float64{1.02, 1.0001, 2, 1.5, 1e13, 1e15, 1e30, 1e100}).Draw(t, "gamma")
+			o := rapid.SampledFrom([]float64{-1e11, 1e11, 3e9, -3e9, 2.2e9, -2.2e9, 1e15, -1e15, 2147483647, -2147483648, 0, 0, 1}).Draw(t, "offset")
 			spec = gen.MapSpec{Kind: kind, Gamma: g, Offset: o}
 		}
 		m, err := spec.Build()
@@ -448,6 +448,25 @@ func TestC13_DegenerateRange(t *testing.T) {
 					t.Fatalf("C13 degenerate %s: count %v after accepting a total weight of %v", spec, got, accepted)
 				}
 			}
+		}
+		// a sketch whose mapping has the same kind and offset but another base is refused as a merge argument, however
+		// extreme both bases are (accuracies that all round to 1 included), and the refusal changes nothing
+		g0, o0 := gen.GammaOf(m)
+		for _, g2 := range []float64{g0 * 2, g0 * g0, g0 * 1e15} {
+			om, err := (gen.MapSpec{Kind: kind, Gamma: g2, Offset: o0}).Build()
+			if err != nil || math.IsInf(g2, 0) || math.Abs(g2-g0) < 1e-3*g0 {
+				continue // (bases closer than 0.1% may legitimately compare equal: gamma^2 for an accuracy of 1e-15)
+			}
+			arg := obs.NewSK(exact, om, func() store.Store { return store.NewSparseStore() }, func() store.Store { return store.NewSparseStore() })
+			_ = arg.AddWithCount(0, 2)
+			before := s.GetCount()
+			if err := s.MergeWith(arg); err == nil {
+				t.Fatalf("C13 degenerate %s: MergeWith a sketch whose mapping has base %v (same kind and offset) was accepted", spec, g2)
+			}
+			if s.GetCount() != before {
+				t.Fatalf("C13 degenerate %s: the refused MergeWith changed the count from %v to %v", spec, before, s.GetCount())
+			}
+			cl.label("refused-merge")
 		}
 		cl.done(true)
 	})
